@@ -25,6 +25,12 @@ def eq(ctx, rule="C18.fields"):
         ok = reads.get(a, 0) >= 2
         ctx.ob(rule, f.site, ok, "" if ok else f"Program.__eq__ does not compare the {what} (`{a}`) of both commands",
                role=f"field:{a}", line=f.node.lineno)
+    # modes are compared as ordered sequences (zip over .reg), not as sets
+    ordered = any(isinstance(n, ast.Call) and dotted(n.func) == "zip" and
+                  all((dotted(a) or "").endswith(".reg") for a in n.args) and len(n.args) == 2 for n in walk_no_nested(f.node))
+    unordered = any(isinstance(n, ast.Compare) and "get_dependencies" in ast.unparse(n) for n in walk_no_nested(f.node))
+    ctx.ob(rule, f.site, ordered and not unordered, "" if ordered and not unordered else "the modes of two commands are not "
+           "compared position by position: BSgate | (q0, q2) equals BSgate | (q2, q0)", role="modes-ordered", line=f.node.lineno)
     # every per-command comparison result reaches the verdict
     loop = [n for n in walk_no_nested(f.node) if isinstance(n, ast.For)]
     ctx.require(loop, "Program.__eq__ has no command loop")
@@ -126,10 +132,28 @@ def relation(ctx, rule="C18.relation"):
     ok = bool(loops)
     ctx.ob(rule, g.site, ok, "" if ok else "the two programs are no longer prepared by the same code (asymmetric comparison)",
            role="symmetric-prep", line=g.node.lineno)
+    # inside the loop every node attribute is computed from the loop variable (the graph being prepared)
+    if loops:
+        lv = loops[0].target.id if isinstance(loops[0].target, ast.Name) else None
+        for comp in [n for n in ast.walk(loops[0]) if isinstance(n, (ast.DictComp, ast.ListComp)) or
+                     (isinstance(n, ast.For) and n is not loops[0])]:
+            its = [gen.iter for gen in comp.generators] if not isinstance(comp, ast.For) else [comp.iter]
+            for it in its:
+                if ".nodes()" in ast.unparse(it):
+                    ok = lv is not None and lv in {x.id for x in ast.walk(it) if isinstance(x, ast.Name)}
+                    ctx.ob(rule, g.site, ok, "" if ok else f"`{ast.unparse(it)[:40]}`: a node attribute of both graphs is computed "
+                           "from one fixed program: the other program's flags are never compared", role="attr-from-loop-graph",
+                           line=it.lineno)
+    # the comparison accounts for every command: no node is removed from either DAG
+    rm = [n for n in walk_no_nested(g.node) if isinstance(n, ast.Call) and isinstance(n.func, ast.Attribute) and
+          n.func.attr in ("remove_node", "remove_nodes_from", "remove_edge", "remove_edges_from", "clear")]
+    ctx.ob(rule, g.site, not rm, "" if not rm else f"`{ast.unparse(rm[0])[:50]}` drops commands from the graphs before they are "
+           "compared: ordering across the dropped commands is lost", role="no-node-removal",
+           line=(rm[0].lineno if rm else g.node.lineno))
     iso = [n for n in walk_no_nested(g.node) if isinstance(n, ast.Call) and (dotted(n.func) or "").endswith("is_isomorphic")]
     ok = bool(iso) and len(iso[0].args) >= 3 and dotted(iso[0].args[2]) == "node_match"
     ctx.ob(rule, g.site, ok, "" if ok else "the isomorphism test does not use node_match", role="uses-node-match", line=g.node.lineno)
-    ctx.floor(rule, 3)
+    ctx.floor(rule, 8)
 
 
 def rules(ctx):
